@@ -63,6 +63,9 @@ def main():
             assert r.returncode == 0, r.stderr
             env = dict(os.environ)
             env["MSMART_REPO"] = wt2
+            # replay files of this evaluation go to a directory of its own (several evaluations may run at once)
+            env["VERIF_REPLAY_DIR"] = wt2 + "_replays"
+            os.makedirs(env["VERIF_REPLAY_DIR"], exist_ok=True)
             for c in checks:
                 r = sh(f"cd {VERIF} && ./check {c} --tier {tier} --no-evidence", env=env)
                 sig = [l for l in r.stdout.splitlines() if l.startswith("signature:")]
@@ -71,13 +74,11 @@ def main():
         finally:
             sh(f"git -C /repo worktree remove --force {wt2}")
             shutil.rmtree(wt2, ignore_errors=True)
+            shutil.rmtree(wt2 + "_replays", ignore_errors=True)
     meta["confirmed_by_us"] = confirmed
     meta["checks_run"] = results
     meta["caught_by"] = [c for c, v in results.items() if v["exit"] == 1]
     json.dump(meta, open(os.path.join(dst, "meta.json"), "w"), indent=1)
-    for f in os.listdir(os.path.join(VERIF, "replays")):
-        if f.endswith(".json"):
-            os.remove(os.path.join(VERIF, "replays", f))
     print(sid, "confirmed" if confirmed["ok"] else f"NOT CONFIRMED {confirmed}", "| caught by:", meta["caught_by"],
           "| missed by:", [c for c, v in results.items() if v["exit"] != 1])
     for c, v in results.items():
